@@ -48,6 +48,18 @@ func init() {
 		if err := c04w(cfg, emit); err != nil {
 			return err
 		}
+		// the same, as a server applies it: the server has answered the batch before, when the account's
+		// DID resolved to the key that really signed (a rotated key, a corrected resolver entry)
+		ns := 240
+		if cfg.Thorough() {
+			ns = 5000
+		}
+		genWorlds(cfg, ns, genOpts{minDepth: 1, maxDepth: 4, sessions: true, sessionPct: 100, webAccount: true,
+			kinds: []string{"wrongkey-account", "wrongkey-account", "none"}}, func(w *AWorld, class string) {
+			w.Services = []ASvc{{Can: w.Desc.Can, Result: "ok"}}
+			w.Invs = []int{w.Inv}
+			emit("serve", []string{"C04", mustJSON(w)}, "served/"+class, true)
+		})
 		// the same session validated before and after the attestation's window boundary passes
 		genSeq(cfg, emit, "C04", 30, 300, 100)
 		return nil
